@@ -385,7 +385,7 @@ fn members_of(pkgs: &[PkgSrc], versioned: bool) -> Vec<deno_graph::WorkspaceMemb
 
 fn apply_edit(tape: &mut Tape, pkgs: &mut Vec<PkgSrc>) -> String {
   let pi = tape.draw(Stream::World, pkgs.len() as u32) as usize;
-  let kind = tape.draw(Stream::World, 7);
+  let kind = tape.draw(Stream::World, 8);
   let p = &mut pkgs[pi];
   let n = tape.draw(Stream::World, 1000);
   match kind {
@@ -428,6 +428,31 @@ fn apply_edit(tape: &mut Tape, pkgs: &mut Vec<PkgSrc>) -> String {
         });
       }
       format!("{}: remove non-inferable exports", p.name)
+    }
+    7 => {
+      // the package stops using (and re-exporting) the package it depended
+      // on; another package or the workspace member may still depend on it
+      let mut n_removed = 0;
+      for f in p.files.values_mut() {
+        let before = f.len();
+        f.retain(|l| {
+          !(l.contains("from \"jsr:")
+            || l.starts_with("export type Wrapped")
+            || l.starts_with("import type { Wrapped }")
+            || l.starts_with("export function wrap(")
+            || l.starts_with("export function viaExtra("))
+        });
+        n_removed += before - f.len();
+      }
+      if n_removed == 0 {
+        let m = p.files.get_mut("/mod.ts").unwrap();
+        if let Some(l) = m.iter_mut().find(|l| l.starts_with("function hidden")) {
+          *l = format!("function hidden(): number {{ return helper({}); }}", n);
+        }
+        format!("{}: body of a private function", p.name)
+      } else {
+        format!("{}: drop the dependency on the other package", p.name)
+      }
     }
     5 => {
       let m = p.files.get_mut("/priv.ts").unwrap();
